@@ -70,7 +70,8 @@ def load(mir_path, src_root):
     for m in re.finditer(r'^fn (.*?)(\(.*?\) -> .*?) \{\n(.*?)^\}', txt, re.S | re.M):
         fns.append(Fn(m.group(1), m.group(2), m.group(3)))
     for m in re.finditer(r'^const ([^\n]*?) = \{\n(.*?)^\}', txt, re.S | re.M):
-        name, ty = m.group(1).rsplit(': ', 1)
+        pm = re.match(r'(.*?(?:promoted\[\d+\]|\{constant#\d+\})): (.*)$', m.group(1), re.S)
+        name, ty = (pm.group(1), pm.group(2)) if pm else m.group(1).rsplit(': ', 1)
         f = Fn(name, '() -> ' + ty, m.group(2)); consts[name] = f
     allocs = {}
     for m in re.finditer(r'^(alloc\d+) \(static: \w+, size: \d+, align: \d+\) \{\n\s*╾─*(alloc\d+)<imm>─*╼ ((?:[0-9a-f]{2} ){8})', txt, re.M):
@@ -225,6 +226,24 @@ def set_path(v, path, new):
         xs = list(v[3]); xs[i] = set_path(xs[i], path[1:], new); return ('adt', v[1], v[2], tuple(xs))
     raise Unsupported('field write into ' + str(v)[:60])
 
+
+
+def path_segments(head):
+    """`a::b::<T -> U>::C` -> ['a', 'b', 'C'] (generic arguments dropped; `->` inside them is not a bracket)"""
+    segs, cur, d, i = [], '', 0, 0
+    while i < len(head):
+        ch = head[i]
+        if ch == '-' and head[i + 1:i + 2] == '>': i += 2; continue
+        if ch in '<([': d += 1
+        elif ch in '>)]': d -= 1
+        elif d == 0:
+            if ch == ':' and head[i + 1:i + 2] == ':':
+                if cur: segs.append(cur)
+                cur = ''; i += 2; continue
+            cur += ch
+        i += 1
+    if cur: segs.append(cur)
+    return [x.strip() for x in segs if x.strip()]
 
 # ----------------------------------------------------------------------------- types (for impl resolution)
 def strip_lifetimes(t):
@@ -518,13 +537,7 @@ class Exec:
                     d -= 1
                     if d == 0: break
             head, inner = s[:i], s[i + 1:-1]
-            name = head
-            while True:
-                n2 = re.sub(r'::<[^<>]*>', '', name)
-                n2 = re.sub(r'<[^<>]*>', '', n2)
-                if n2 == name: break
-                name = n2
-            parts = name.split('::')
+            parts = path_segments(head)
             fields = [self.operand(st, fr, x) for x in split_top(inner)]
             if len(parts) >= 2 and parts[-2][:1].isupper():
                 return adt(parts[-2], parts[-1], *fields)
